@@ -962,3 +962,64 @@ pub fn run_regress(property: &str, exec: impl Fn(&str, Value) -> Outcome) -> Sta
         o
     })
 }
+
+// ---------------------------------------------------------------------------------------
+// in-flight breadcrumbs: attribute a process abort (panic inside `extern "C"`, SIGSEGV...)
+// to the case that was executing. Each shard thread keeps one small file up to date; the
+// `check` driver replays the breadcrumbs of a process that died abnormally.
+// ---------------------------------------------------------------------------------------
+pub mod inflight {
+    use super::*;
+    use std::cell::RefCell;
+    use std::io::{Seek, SeekFrom, Write};
+
+    thread_local! {
+        static FILE: RefCell<Option<(std::fs::File, PathBuf)>> = const { RefCell::new(None) };
+    }
+
+    /// record the case about to be executed by this thread
+    pub fn mark(property: &str, sub: &str, case_json: &str) {
+        FILE.with(|f| {
+            let mut f = f.borrow_mut();
+            if f.is_none() {
+                let dir = verif_dir().join("replays").join(property);
+                let _ = std::fs::create_dir_all(&dir);
+                let tid = format!("{:?}", std::thread::current().id()).replace(|c: char| !c.is_ascii_digit(), "");
+                let p = dir.join(format!("inflight-{}-{}.json", std::process::id(), tid));
+                if let Ok(file) = std::fs::File::create(&p) {
+                    *f = Some((file, p));
+                }
+            }
+            if let Some((file, _)) = f.as_mut() {
+                let body = format!(
+                    "{{\"property\":\"{property}\",\"sub\":\"{sub}\",\"signature\":\"{property}/process-aborted-while-executing-this-case\",\"message\":\"the process died (abort/signal) while this case was executing\",\"case\":{case_json}}}"
+                );
+                let _ = file.seek(SeekFrom::Start(0));
+                let _ = file.write_all(body.as_bytes());
+                let _ = file.set_len(body.len() as u64);
+            }
+        });
+    }
+
+    /// the case finished normally: nothing in flight on this thread
+    pub fn clear() {
+        FILE.with(|f| {
+            if let Some((file, _)) = f.borrow_mut().as_mut() {
+                let _ = file.set_len(0);
+            }
+        });
+    }
+
+    /// remove this process's breadcrumb files (normal exit)
+    pub fn cleanup(property: &str) {
+        let dir = verif_dir().join("replays").join(property);
+        let prefix = format!("inflight-{}-", std::process::id());
+        if let Ok(rd) = std::fs::read_dir(&dir) {
+            for e in rd.flatten() {
+                if e.file_name().to_string_lossy().starts_with(&prefix) {
+                    let _ = std::fs::remove_file(e.path());
+                }
+            }
+        }
+    }
+}
